@@ -53,6 +53,16 @@ DESC = {
  "C14-3": "EventIterator filters by full token equality with the registration token (drops events of sub-ids > 0)",
  "C16-3": "TransientSource::unregister treats the pending Disable state as not registered (fd stays in the poller)",
  "C18-3": "remove() while a replacement is pending turns the never registered replacement into Remove and drops the old child",
+ "C02-3": "Async::register_waker skips the poller re-arm when a waker is stored (same edit as C17-2)",
+ "C03-3": "the close increment is sent from Drop for Ping behind `Arc::strong_count == 1` (check-then-act race between the last two handles)",
+ "C06-4": "dispatch_events caches the dispatcher of the previous event: a source that removed itself gets the next event of the batch",
+ "C07-3": "TransientSource::reregister registers a Disabled child again (a child that asked for Disable wakes up on update)",
+ "C10-4": "Executor::drop drops the wakers of pending futures instead of waking them (a future with a waker clone elsewhere outlives it)",
+ "C12-3": "Poll::poll clamps the wait against the clock reading taken at the start of dispatch_events (stale by the before_sleep hooks)",
+ "C15-3": "a failing enable() rolls back with unregister() (deletes a registration that belongs to another source)",
+ "C17-3": "IoDispatcher::process_events does not wake the task when the readiness equals the stored one",
+ "C19-3": "add_signals skips the mask update unless the LAST listed signal is new (`=` instead of `|=`)",
+ "C20-3": "increment_sub_id rebuilds the token from TokenInner::new(id): the generation is dropped for sub-ids >= 1",
  "C20-1": "TokenFactory::token stops advancing at the last sub-id (hands the same token out again)",
 }
 print("| seed | change (source files) | quick checks run with it applied → verdict, failing obligations | trial history |")
